@@ -143,13 +143,6 @@ Definition step2 (o : op2) (s : st2) (sd : side) (e : ev) : st2 * list ev :=
       else (s, [])
   end.
 
-(* is_finished of the observer handed to input `sd`, given the downstream's answer *)
-Definition fin2 (o : op2) (s : st2) (sd : side) (down : bool) : bool :=
-  match o, sd with
-  | OSkipUntil, B => false                (* SkipUntilNotifierObserver::is_finished *)
-  | _, _ => negb (alive s) || down
-  end.
-
 (* Which input `actual_subscribe` subscribes first (matters for cold inputs). *)
 Definition first_side (o : op2) : side :=
   match o with
